@@ -6,7 +6,8 @@ _CROSS_PATTERNS = ["^a[Bb]c", "^ab?c", "^foo|bar", "(?i)^abc"]
 PROPS["C01"]["groups"] += [
     # route / destination filters decide which routes "match": the filter semantics of C03 on 4 pattern shapes
     {"pkg": "matcher", "hdir": "matcher",
-     "specs": [spec("C01/filter/regex=" + p, "VerifC03Regex", {"regex": p, "notRegex": "", "maxlen": "xxxx"}) for p in _CROSS_PATTERNS] +
+     "specs": [spec("C01/filter/literal", "VerifC03Literal")] +
+              [spec("C01/filter/regex=" + p, "VerifC03Regex", {"regex": p, "notRegex": "", "maxlen": "xxxx"}) for p in _CROSS_PATTERNS] +
               [spec("C01/filter/notRegex=" + p, "VerifC03Regex", {"regex": "", "notRegex": p, "maxlen": "xxxx"}) for p in _CROSS_PATTERNS]},
     # a metric reaches the routes unless a drop-raw aggregation really consumed it (C11's obligation)
     {"pkg": "table", "hdir": "table", "specs": [spec("C01/dropraw", "VerifC11DropRaw", {"regex": "^a(b|c)", "notRegex": "c$"}),
